@@ -9,6 +9,8 @@ git apply "$patch" 2>/dev/null || git apply -3 "$patch" || { echo "patch does no
 git reset -q
 cd /verif
 for c in "$@"; do
-  timeout 900 bin/verif check "$c" --tier ${TIER:-quick} 2>&1 | grep -E "^(VIOLATION|KNOWN|C[0-9]+ |violation|INFRA|verif:)" | cut -c1-400 | head -${LINES_MAX:-12}
-  echo "exit=${PIPESTATUS[0]}"
+  out=$(timeout 900 bin/verif check "$c" --tier ${TIER:-quick} 2>&1); e=$?
+  echo "$out" | grep -E "^(violation|INFRA|verif:)" | cut -c1-400 | head -${LINES_MAX:-8}
+  echo "$out" | grep -E "^(VIOLATION|KNOWN|C[0-9]+ )" | cut -c1-400
+  echo "exit=$e"
 done
